@@ -322,6 +322,61 @@ func genC14(g *Rng, tier string, emit func(Op)) {
 		if anyPart {
 			emit(listOp(kps, proofListTrees(pl2), context, nonce, issig, kss, "without-server", "reject"))
 		}
+		// a second complete exchange over the same builders (a retry with a new nonce: fresh
+		// randomisers, fresh server commitments): the joint list verifies again
+		if r%2 == 0 && !ambig {
+			func() {
+				nonce2 := g.bits(128)
+				rnd2 := map[string]*big.Int{"secretkey": g.bits(592)}
+				for _, b := range builders {
+					b.SetProofPCommitment(nil)
+				}
+				commReq2, hashInput2, err := gabi.KeyshareUserCommitmentRequest(builders, rnd2, part)
+				if err != nil {
+					emit(Op{"op": "recorded", "class": "second-exchange", "label": "completed", "nomodel": true, "result": "commitment request: " + err.Error()})
+					return
+				}
+				kssRand2, kssComm2, err := gabi.NewKeyshareCommitments(kssSecret, partKeys)
+				if err != nil {
+					panic(err)
+				}
+				for i, b := range builders {
+					if _, ok := part[kps[i].id]; ok {
+						b.SetProofPCommitment(kssComm2[i])
+					}
+				}
+				respReq2, challenge2, err := gabi.KeyshareUserResponseRequest(builders, rnd2, hashInput2, context, nonce2, issig)
+				if err != nil {
+					emit(Op{"op": "recorded", "class": "second-exchange", "label": "completed", "nomodel": true, "result": "response request: " + err.Error()})
+					return
+				}
+				respReq2.Context = context
+				emit(ksOp(partIDs, kssSecret, kssRand2, commReq2.HashedUserCommitments, context, nonce2, respReq2.UserResponse, issig, respReq2.UserChallengeInput, "honest-second-exchange", "ok:"+showInt(challenge2)))
+				proofP2, err := gabi.KeyshareResponse(kssSecret, kssRand2, commReq2, respReq2, part)
+				if err != nil {
+					emit(Op{"op": "recorded", "class": "second-exchange", "label": "completed", "nomodel": true, "result": "server: " + err.Error()})
+					return
+				}
+				pps := make([]*gabi.ProofP, n)
+				for i := range builders {
+					if _, ok := part[kps[i].id]; ok {
+						pps[i] = proofP2
+					}
+				}
+				plB, err := builders.BuildDistributedProofList(challenge2, pps)
+				if err != nil {
+					emit(Op{"op": "recorded", "class": "second-exchange", "label": "completed", "nomodel": true, "result": "proof list: " + err.Error()})
+					return
+				}
+				t2 := proofListTrees(plB)
+				for _, t := range t2 {
+					if tt, ok := t.(T); ok && tt["nonrev_proof"] != nil && ambiguous(tt) {
+						return
+					}
+				}
+				emit(listOp(kps, t2, context, nonce2, issig, kss, "joint-list-second-exchange", "accept").with("fkey", "C14/second-exchange"))
+			}()
+		}
 		// every alteration of the second message relative to the first
 		alt := func(class string, f func(in []ksIn) []ksIn) {
 			cp := make([]ksIn, len(in))
